@@ -75,6 +75,17 @@ func (s *c20Server) serve(ln net.Listener) {
 			case <-r.Context().Done():
 			case <-time.After(20 * time.Second):
 			}
+		case "stall-get":
+			// the server answers a HEAD request at once and then never answers the GET
+			if r.Method != http.MethodHead {
+				select {
+				case <-r.Context().Done():
+				case <-time.After(20 * time.Second):
+				}
+				return
+			}
+			w.Header().Set("Content-Type", "text/yaml")
+			w.Header().Set("Content-Length", fmt.Sprint(len(c20Content(content))))
 		default:
 			w.Write([]byte(c20Content(content)))
 		}
@@ -93,6 +104,15 @@ func (s *c20Server) serve(ln net.Listener) {
 			case <-r.Context().Done():
 			case <-time.After(20 * time.Second):
 			}
+		case "stall-get":
+			if r.Method != http.MethodHead {
+				select {
+				case <-r.Context().Done():
+				case <-time.After(20 * time.Second):
+				}
+				return
+			}
+			w.Header().Set("Content-Type", "text/yaml")
 		default:
 			w.Write([]byte("version: '3'\nincludes:\n  b: http://" + s.addr + "/inc.yml\ntasks:\n  showa:\n    cmds:\n      - echo OUTER\n"))
 		}
@@ -558,7 +578,7 @@ func c20NestedUnit() *Unit {
 		var samples []any
 		rootTF := "version: '3'\nincludes:\n  a: http://" + srv.addr + "/a.yml\ntasks:\n  local:\n    cmds: ['true']\n"
 		env := []string{"TASK_X_REMOTE_TASKFILES=1"}
-		for _, mode := range []string{"silent", "refusing", "http500"} {
+		for _, mode := range []string{"silent", "stall-get", "refusing", "http500"} {
 			for _, extra := range [][]string{nil, {"--download"}, {"--offline"}} {
 				os.RemoveAll(dir)
 				os.MkdirAll(dir, 0o755)
